@@ -177,7 +177,10 @@ class Codec:
             if trailer_end != -1:
                 next_msg = trailer_end + 1
 
-        encoded_msg = rawmsg[valid_idx : next_msg + valid_idx]
+        # a malformed frame takes only itself out of the buffer
+        frame_end = valid_idx + next_msg
+
+        encoded_msg = rawmsg[valid_idx:frame_end]
 
         msg = msg[:next_msg].split(self.SOH)
         if not msg[-1]:
@@ -195,22 +198,22 @@ class Codec:
                 % (value, self.protocol.beginstring)
             )
             assert silent, "protocol beginstring mismatch"
-            return (None, len(rawmsg), None)
+            return (None, frame_end, None)
 
         toks = msg[1].split("=", 1)
         if len(toks) != 2:
             assert silent, f"BodyLength split error {msg}"
-            return (None, len(rawmsg), None)
+            return (None, frame_end, None)
         tag, value = toks
 
         msg_length = len(msg[0]) + len(msg[1]) + len("10=000") + 3
         if tag != FTag.BodyLength:
             logging.error(f"*** BodyLength missing or not 2nd field *** [{tag}]: {msg}")
             assert silent, "2nd tag must be BodyLength"
-            return (None, len(rawmsg), None)
+            return (None, frame_end, None)
         elif not (value.isascii() and value.isdigit()):
             assert silent, "BodyLength is not a number"
-            return (None, len(rawmsg), None)
+            return (None, frame_end, None)
         else:
             msg_length += int(value)
 
@@ -231,11 +234,11 @@ class Codec:
             toks = m.split("=", 1)
             if len(toks) != 2:
                 assert silent, f"incomplete tag {m}"
-                return (None, len(rawmsg), None)
+                return (None, frame_end, None)
             tag, value = toks
             if not (tag.isascii() and tag.isdigit()):
                 assert silent, f"non numeric tag {m}"
-                return (None, len(rawmsg), None)
+                return (None, frame_end, None)
 
             if tag == FTag.CheckSum:
                 if not (value.isascii() and value.isdigit()):
